@@ -15,6 +15,8 @@ pub use context::{FlowContext, FlowTelemetry};
 pub use metrics::FlowMetrics;
 pub use operator::{FlowOperator, FlowOperatorError, FlowSource};
 pub use ordered_merger::OrderedStreamMerger;
+#[cfg(kani)]
+pub use ordered_merger::verif_heap_item_cmp;
 pub use pool::BatchPool;
 
 #[cfg(test)]
